@@ -48,7 +48,14 @@ Definition mon_c02 (c : smcase) (t : list action) : bool :=
 Definition run_c02 := run_sm proj_c02 mon_c02.
 Definition mon_c04 (c : smcase) (t : list action) : bool := match c with KSm _ _ _ cup _ _ _ _ => accepts step4 (init4 cup) t end.
 Definition run_c04 := run_sm proj_c04 mon_c04.
-Definition mon_c05 (c : smcase) (t : list action) : bool := match c with KSm ep _ _ _ _ _ _ _ => accepts step5 (init5 ep) t && accepts step5b init5b t end.
+(* the machine never starts at all if any app has an empty id or version 0 (Props/C05.v: C05_invalid_app_set_is_inert) *)
+Definition inert_ok (ep : entry_point) (apps : list app) (t : list action) : bool :=
+  match ep with
+  | EStart => if forallb app_valid apps then true else match t with [] => true | _ => false end
+  | EOneshot => true
+  end.
+Definition mon_c05 (c : smcase) (t : list action) : bool :=
+  match c with KSm ep _ _ _ apps _ _ _ => accepts step5 (init5 ep) t && accepts step5b init5b t && inert_ok ep apps t end.
 Definition run_c05 := run_sm proj_c05 mon_c05.
 Definition mon_c06 (c : smcase) (t : list action) : bool :=
   match c with KSm ep _ _ cup _ e _ _ =>
